@@ -3,9 +3,11 @@ PROP = dict(
     engines=["c38"],
     go_tags=["c38"],
     gen_files={"MM/Gen/C38.lean": "c38"},
+    extract_files={"MM/Gen/C38Sites.lean": {"cmd": ["go", "run", "{VERIF}/harness/extract/c38sites.go", "{REPO}"]}},
     lean_modules=["MM.Props.C38"],
     theorems=[
         "MM.C38.C38_tie",
+        "MM.C38.C38_open_sites_allocated",
         "MM.C38.C38_unique_nonzero_parity",
         "MM.C38.C38_ids_exact",
         "MM.C38.C38_ends_disjoint",
@@ -15,10 +17,13 @@ PROP = dict(
     rule="stress: g in {1..64} goroutines x p in {1..15000} calls of peer.Connection.NextStreamID() on one end (conc) and on both ends at once "
          "(pair) of a connection built with peer.NewConnection over a stub PeerConn; the id set is summarised (n, distinct, min, max, zeros, "
          "wrong-parity, overlap) and compared with the model's; sequential prefixes (seq) and counters positioned near 0/2^63/2^64 through an "
-         "accessor (wrap) are compared id by id; cold = thousands of FRESH connections whose first 2-4 allocations race behind a barrier; life = allocation "
+         "accessor (wrap) are compared id by id; mix = ONE real agent (agent.New, not started) with one injected peer connection and a default route through it opens "
+         "TCP streams (Agent.DialContext), UDP associations (CreateUDPAssociation + getOrCreateDestAssociation), ICMP sessions (CreateICMPSession) "
+         "and shell streams (OpenShellStream) in a given order; the StreamID of every STREAM_OPEN/UDP_OPEN/ICMP_OPEN the peer receives is "
+         "recorded; cold = thousands of FRESH connections whose first 2-4 allocations race behind a barrier; life = allocation "
          "interleaved with every public method of *peer.Connection / *transport.StreamIDAllocator named release/reset/return/free/rewind "
          "(found by reflection); non-trivial = at least 2 goroutines or a positioned counter",
-    nontrivial=lambda op, out: op.startswith(("pair", "wrap", "warm", "cold", "life")) or (op.startswith("conc") and op.split()[2] != "1"),
+    nontrivial=lambda op, out: op.startswith(("pair", "wrap", "warm", "cold", "life", "mix")) or (op.startswith("conc") and op.split()[2] != "1"),
     trusted_base=[
         "atomic.Uint64.Add is one indivisible read-modify-write (Go memory model) — the model's atomic step",
         "start values and increment regenerated from the compiled package (MM/Gen/C38.lean); shape of Next checked on the AST "
